@@ -108,6 +108,7 @@ def _event_locks_part():
 SPEC = {
     "C18": {
         "pre": pre,
+        "extra_props": ("TsoSpin",),
         "parts": [{"name": "spin", "harness": "spin", "model": "Spin", "gen": gen_spin}, _event_locks_part()],
         "trusted_base": [
             "32-bit ticket/users counters modelled modulo 2^32 with arbitrary initial value; "
